@@ -1,4 +1,4 @@
-From InfOCF Require Import Core Tol CInf Form Model CModel PyLib PyInt TieLib TieMax TieC TieCBase TieCInf TieCComp.
+From InfOCF Require Import Core Tol CInf Form Model CModel ThmPostInt PyLib PyInt TieLib TieMax TieC TieCBase TieCInf TieCComp.
 From InfOCFGen Require Import SrcC.
 From Coq Require Import ZArith.
 (* the generated pieces of c-inference chained as CInference runs them: compile_constraint fills vMin / fMin, translate()
@@ -13,3 +13,18 @@ Theorem src_c_pipeline n D (Hnd:NoDup (map kz D)) (Hver:forall i, i < length D -
     (selffulfilling n D = false -> (b = true <-> c_spec_prop n D q)).
 Proof. destruct (src_c_inference_skeptical n D Hnd Hver isolve Hsolve q weakly) as [base [Eb [b [Er [H1 H2]]]]].
   exists (vM n D), (fM n D), base, b. split; [apply tie_compile_constraint; exact Hnd|]. auto. Qed.
+
+(* on a strongly consistent base every conditional has a verifying pattern (its constraint could not hold otherwise) *)
+Lemma consistent_verifiable n D P : part_strict n D = Some P -> forall i, i < length D -> vMin n D i <> [].
+Proof. intros HP i Hi E. destruct (ThmPostInt.strict_csp_satisfiable n D P HP) as [eta [Hl Hc]].
+  unfold csp_b in Hc. eapply forallb_forall in Hc; [|apply in_seq; split; [apply Nat.le_0_l|exact Hi]].
+  unfold constraint_i in Hc. unfold vMin in E. rewrite E in Hc. simpl in Hc. discriminate. Qed.
+Corollary src_c_pipeline_consistent n D P (Hnd:NoDup (map kz D)) (HP:part_strict n D = Some P)
+  isolve (Hsolve:forall l, exists b, isolve l = Return b /\ (b = true <-> exists sg, csp_sat sg l = true)) q weakly :
+  exists vm fm base b,
+    py_CInference_compile_constraint n (nf_of D) (vd_of D) (fd_of D) tt [] [] = Return (tt, (vm, fm)) /\
+    py_CInference_translate n (bb_of D) vm fm = Return base /\
+    py_CInference_inference n isolve (bb_of D) tt base (nf_of D) q weakly tt = Return b /\
+    (selffulfilling n D = true -> b = false) /\
+    (selffulfilling n D = false -> (b = true <-> c_spec_prop n D q)).
+Proof. apply src_c_pipeline; [exact Hnd|exact (consistent_verifiable n D P HP)|exact Hsolve]. Qed.
